@@ -9,6 +9,7 @@ import (
 	"fmt"
 	"html"
 	"io"
+	"math"
 	"reflect"
 	"sort"
 	"strconv"
@@ -525,9 +526,9 @@ func showInJS(env *env, out io.Writer, value any) error {
 	case reflect.Uint, reflect.Uint8, reflect.Uint16, reflect.Uint32, reflect.Uint64, reflect.Uintptr:
 		s = strconv.FormatUint(v.Uint(), 10)
 	case reflect.Float32:
-		s = strconv.FormatFloat(v.Float(), 'f', -1, 32)
+		s = showFloatInJS(v.Float(), 32)
 	case reflect.Float64:
-		s = strconv.FormatFloat(v.Float(), 'f', -1, 64)
+		s = showFloatInJS(v.Float(), 64)
 	case reflect.String:
 		_, err := w.WriteString("\"")
 		if err == nil {
@@ -962,6 +963,18 @@ func showInMarkdownCodeBlock(env *env, out io.Writer, value any, spaces bool) er
 	}
 	w := newStringWriter(out)
 	return markdownCodeBlockEscape(w, s, spaces)
+}
+
+// showFloatInJS shows a floating-point value in a JavaScript context.
+// bitSize is the size in bits of the type of the value.
+func showFloatInJS(f float64, bitSize int) string {
+	switch {
+	case math.IsInf(f, 1):
+		return "Infinity"
+	case math.IsInf(f, -1):
+		return "-Infinity"
+	}
+	return strconv.FormatFloat(f, 'f', -1, bitSize)
 }
 
 // showTimeInJS shows a value of type time.Time in a JavaScript context. It
